@@ -264,14 +264,14 @@ func c01R2(c *Ctx, r *Report, x *idxInfo) {
 		}
 		for _, ifi := range allIfs(f) {
 			b, ok := ifi.Cond.(*ssa.BinOp)
-			if !ok || b.Op != token.EQL || isNilConst(b.X) || isNilConst(b.Y) {
+			if !ok || (b.Op != token.EQL && b.Op != token.NEQ) || isNilConst(b.X) || isNilConst(b.Y) || len(ifi.Block().Succs) != 2 {
 				continue
 			}
 			if !(x.isEntryLoad(b.X) || x.isEntryLoad(b.Y)) {
 				continue
 			}
-			// start of the true branch
-			tb := ifi.Block().Succs[0]
+			// start of the branch on which the entry point IS the removed vertex (`!=` with an early return is the same test)
+			tb := succOn(ifi, b.Op == token.EQL)
 			if len(tb.Instrs) == 0 {
 				continue
 			}
